@@ -75,7 +75,8 @@ INVALID = {
         {'mimetype': ''},
         {'indent': 'x'}, {'indent': 1.5},
         {'text': '€', 'encoding': 'ascii'}, {'text': 'Ā', 'encoding': 'latin-1'},
-        {'text': '\ud800', 'encoding': 'utf-8'}, {'text': 'é', 'encoding': 'shift_jis'},
+        {'text': '\ud800', 'encoding': 'utf-8'}, {'text': 'caf\udce9', 'encoding': 'utf-8'}, {'text': 'x\udc80y', 'encoding': 'latin-1'},
+        {'text': 'caf\udce9'}, {'text': 'é', 'encoding': 'shift_jis'},
         {'encoding': 'no-such-codec'}, {'encoding': 'base64'}, {'encoding': 'utf 8'}, {'encoding': ''}, {'encoding': 'utf-8 '},
         {'encoding': 'utf\u20118'}, {'encoding': 'latin-1\xa0'},
     ],
